@@ -4,7 +4,7 @@ From Coq Require Import List NArith ZArith.
 From GoMC Require Import Base.Bytes Base.Dec Gen.Consts Model.C01 Model.C02 Proofs.C01 Proofs.C01_dec Proofs.C01_more
   Proofs.C02_dec Proofs.C02 Proofs.C02_struct Proofs.C02_all Proofs.C02_emb.
 From GoMC Require Import Base.GoInt Model.C02_syntax Gen.C02gen Proofs.C02_expected Proofs.C02_tie Proofs.C02_tie2
-  Proofs.C02_tie3 Proofs.C02_tie4 Proofs.C02_tie5.
+  Proofs.C02_tie3 Proofs.C02_tie4 Proofs.C02_tie5 Proofs.C02_emb2.
 From GoMC Require Model.C03_syntax Gen.C03gen.
 Import ListNotations.
 Open Scope N_scope.
@@ -403,3 +403,27 @@ Proof.
   - vm_compute. discriminate.
   - vm_compute. discriminate.
 Qed.
+
+(* THE ROUND TRIP THROUGH EMBEDDED STRUCTS, field by field through the NESTED value: if Marshal accepts a struct with
+   embedded structs (table entries named by byte strings, leaf types satisfying the per-field round trip - e.g. any
+   documented type, by C02_roundtrip_tree), Unmarshal of the result into a fresh struct succeeds, and every entry of
+   the field table whose value the encoder reached (no nil embedded pointer on the way) and wrote (not an empty
+   omitempty value) holds, at ITS OWN index sequence in the new struct, canon of the value found at that index
+   sequence in the old one *)
+Theorem C02_embedded_roundtrip : forall ds vs tr,
+  forallb (fun tf => andb (negb (f_skip (tf_fi tf))) (all_bytesb (f_name (tf_fi tf)))) (type_fields ds) = true ->
+  Forall rtf_ok (emb_table ds) ->
+  (forall tf x, In tf (type_fields ds) -> walk (tf_path tf) vs = Some (Some x) -> field_typed (tf_field tf) x = true) ->
+  enc_emb ds vs = TOk tr ->
+  exists vs', unm_emb tr ds = EOk vs' /\
+    forall tf x, In tf (type_fields ds) -> walk (tf_path tf) vs = Some (Some x) -> left_out (tf_field tf) x = false ->
+      walk (tf_path tf) vs' = Some (Some (canon (tf_ty tf) x)).
+Proof. exact emb_roundtrip_fields. Qed.
+(* the per-field obligation holds for every documented leaf type *)
+Theorem C02_rtf_documented : forall f, documented (snd f) = true -> rtf_ok f.
+Proof.
+  intros f Hd x tr Ht He. destruct (rt_both (snd f) Hd) as [I1 I2]. unfold field_typed, field_enc in *.
+  destruct (f_list (fst f)); [exact (I2 x tr Ht He)|]. destruct (I1 x tr Ht He) as (W & _ & U). auto.
+Qed.
+Print Assumptions C02_embedded_roundtrip.
+Print Assumptions C02_rtf_documented.
